@@ -331,10 +331,15 @@ proof fn lemma_merge_finish(kd0: Map<Bytes, KeyDirEntry>, st0: Map<u64, LogStati
         forall |f: u64| sel.contains(f) ==> !w.data.contains_key(f) && !w.hint.contains_key(f),
         forall |f: u64| #[trigger] w.data.contains_key(f) && w0.data.contains_key(f) ==> w.data[f] == w0.data[f],
         merged_world(w0, w, kd0, kd, sel, act, hi), forall |g: u64| #[trigger] w.data.contains_key(g) ==> g <= hi,
+        forall |g: u64| act < g <= hi ==> #[trigger] w.data.contains_key(g) && w.data[g] == w1.data[g],
 {
     reveal(merge_state);
     reveal(del_state);
     reveal(stats_rel);
+    assert forall |g: u64| act < g <= hi implies #[trigger] w.data.contains_key(g) && w.data[g] == w1.data[g] by {
+        assert(out_ok(kd, w1, g));
+        assert(!sel.contains(g));
+    }
     let lo = (act + 1) as u64;
     assert forall |f: u64| sel.contains(f) implies !w.data.contains_key(f) && !w.hint.contains_key(f) by {
         assert(ids.to_set().contains(f));
@@ -484,5 +489,168 @@ proof fn lemma_merge_synced(kd0: Map<Bytes, KeyDirEntry>, st0: Map<u64, LogStati
             stat_of(st, f) == stat_of(st0, f) && stat_rel(stat_of(st, f), kd, f, w2.data[f].recs, 0, 0, 0, false)
             && (exact ==> stat_rel(stat_of(st, f), kd, f, w2.data[f].recs, 0, 0, 0, true)) by {
         assert(w.data.dom().contains(f)); assert(w.data.contains_key(f));
+    }
+}
+
+// ------------------------------ C13: the size invariant of the copy loop ------------------------------
+/// what has been written to the outputs so far == the bytes that became dead in the selected files
+spec fn size_inv(kd0: Map<Bytes, KeyDirEntry>, w0: &World, ids: Seq<u64>, act: u64, kd: Map<Bytes, KeyDirEntry>, w: &World, hi: u64) -> bool {
+    range_size(w, act + 1, hi as int) + sum_dead(kd0, w0, ids) == sum_dead(kd, w0, ids)
+}
+spec fn ids_ok(w0: &World, sel: Set<u64>, ids: Seq<u64>) -> bool {
+    ids.no_duplicates() && ids.to_set() == sel && forall |i: int| 0 <= i < ids.len() ==> w0.data.contains_key(#[trigger] ids[i])
+}
+proof fn lemma_ids_ok(st0: Map<u64, LogStatistics>, kd0: Map<Bytes, KeyDirEntry>, w0: &World, sel: Set<u64>, ids: Seq<u64>)
+    requires stats_rel(st0, kd0, w0, 0, 0, 0, 0, false), forall |g: u64| sel.contains(g) ==> st0.contains_key(g), ids.no_duplicates(), ids.to_set() == sel
+    ensures ids_ok(w0, sel, ids)
+{
+    reveal(stats_rel);
+    assert forall |i: int| 0 <= i < ids.len() implies w0.data.contains_key(#[trigger] ids[i]) by {
+        assert(ids.to_set().contains(ids[i]));
+        assert(st0.contains_key(ids[i]));
+    }
+}
+proof fn lemma_size_init(kd0: Map<Bytes, KeyDirEntry>, w0: &World, ids: Seq<u64>, act: u64, w: &World)
+    requires w.data.contains_key((act + 1) as u64), w.data[(act + 1) as u64].recs.len() == 0, act + 1 <= u64::MAX
+    ensures size_inv(kd0, w0, ids, act, kd0, w, (act + 1) as u64)
+{
+    assert(range_size(w, act + 1, act as int) == 0);
+    assert(fsize(w.data[(act + 1) as u64].recs) == 0);
+    assert(range_size(w, act + 1, act + 1) == range_size(w, act + 1, act as int) + fsize(w.data[(act + 1) as u64].recs));
+}
+/// one copied entry: the output grows by the record, the selected files lose it
+proof fn lemma_size_copy(kd0: Map<Bytes, KeyDirEntry>, st0: Map<u64, LogStatistics>, w0: &World, sel: Set<u64>, act: u64, keys: Seq<Bytes>, exact: bool,
+                         kd: Map<Bytes, KeyDirEntry>, st: Map<u64, LogStatistics>, w: &World, i: int, hi: u64, w2: &World, ids: Seq<u64>, k: Bytes, rn: Rec)
+    requires
+        merge_state(kd0, st0, w0, sel, act, keys, exact, kd, st, w, i, hi), world_wf(w0), world_wf(w), index_ok(kd, w), ids_ok(w0, sel, ids),
+        kd.contains_key(k), sel.contains(kd[k].fileid), rn.len == kd[k].len,
+        w.data.contains_key(hi), w2.data[hi].recs == w.data[hi].recs.push(rn),
+        forall |g: u64| g != hi && w.data.contains_key(g) ==> (#[trigger] w2.data[g]).recs == w.data[g].recs,
+        size_inv(kd0, w0, ids, act, kd, w, hi),
+    ensures
+        size_inv(kd0, w0, ids, act, kd.insert(k, entry_of(hi, rn)), w2, hi),
+{
+    reveal(merge_state);
+    let lo = (act + 1) as u64;
+    let kd2 = kd.insert(k, entry_of(hi, rn));
+    let f = kd[k].fileid;
+    // the record k points at lives in an old file, which the merge has not touched
+    assert(loc_ok(w, k, kd[k]));
+    assert(f <= act);
+    assert(w.data.contains_key(f) == w0.data.contains_key(f));
+    assert(w.data[f] == w0.data[f]);
+    assert(loc_ok(w0, k, kd[k]));
+    assert forall |x: int| 0 <= x < ids.len() implies #[trigger] ids[x] != kd2[k].fileid by {
+        assert(ids.to_set().contains(ids[x])); assert(sel.contains(ids[x])); assert(ids[x] <= act);
+    }
+    lemma_sum_dead_change(kd, kd2, w0, ids, k);
+    assert(ids.to_set().contains(f));
+    assert(ids.contains(f));
+    // the outputs
+    lemma_fsize_push(w.data[hi].recs, rn);
+    assert(range_size(w2, act + 1, hi as int) == range_size(w2, act + 1, hi - 1) + fsize(w2.data[hi].recs));
+    assert(range_size(w, act + 1, hi as int) == range_size(w, act + 1, hi - 1) + fsize(w.data[hi].recs));
+    assert forall |g: u64| act + 1 <= g <= hi - 1 implies (#[trigger] w2.data[g]).recs == w.data[g].recs by {
+        assert(out_ok(kd, w, g));
+    }
+    lemma_range_same(w, w2, act + 1, hi - 1);
+}
+/// fsync of the current outputs leaves every record where it is
+proof fn lemma_size_same(kd0: Map<Bytes, KeyDirEntry>, st0: Map<u64, LogStatistics>, w0: &World, sel: Set<u64>, act: u64, keys: Seq<Bytes>, exact: bool,
+                         kd: Map<Bytes, KeyDirEntry>, st: Map<u64, LogStatistics>, w: &World, i: int, hi: u64, w2: &World, ids: Seq<u64>)
+    requires
+        merge_state(kd0, st0, w0, sel, act, keys, exact, kd, st, w, i, hi), size_inv(kd0, w0, ids, act, kd, w, hi),
+        forall |f: u64| f != hi && #[trigger] w.data.contains_key(f) ==> w2.data[f] == w.data[f],
+        w.data.contains_key(hi) ==> w2.data[hi].recs == w.data[hi].recs,
+    ensures size_inv(kd0, w0, ids, act, kd, w2, hi)
+{
+    reveal(merge_state);
+    assert forall |g: u64| act + 1 <= g <= hi implies (#[trigger] w2.data[g]).recs == w.data[g].recs by {
+        assert(out_ok(kd, w, g));
+    }
+    lemma_range_same(w, w2, act + 1, hi as int);
+}
+/// opening the next (empty) output
+proof fn lemma_size_rollover(kd0: Map<Bytes, KeyDirEntry>, st0: Map<u64, LogStatistics>, w0: &World, sel: Set<u64>, act: u64, keys: Seq<Bytes>, exact: bool,
+                             kd: Map<Bytes, KeyDirEntry>, st: Map<u64, LogStatistics>, w: &World, i: int, hi: u64, w2: &World, ids: Seq<u64>)
+    requires
+        merge_state(kd0, st0, w0, sel, act, keys, exact, kd, st, w, i, hi), size_inv(kd0, w0, ids, act, kd, w, hi), hi + 1 < 0x4000_0000_0000_0000,
+        w2.data == w.data.insert((hi + 1) as u64, empty_data()),
+    ensures size_inv(kd0, w0, ids, act, kd, w2, (hi + 1) as u64)
+{
+    reveal(merge_state);
+    assert forall |g: u64| act + 1 <= g <= hi implies (#[trigger] w2.data[g]).recs == w.data[g].recs by {
+        assert(out_ok(kd, w, g));
+    }
+    lemma_range_same(w, w2, act + 1, hi as int);
+    assert(fsize(w2.data[(hi + 1) as u64].recs) == 0);
+    assert(range_size(w2, act + 1, hi + 1) == range_size(w2, act + 1, hi as int) + fsize(w2.data[(hi + 1) as u64].recs));
+}
+/// at the end of the copy loop nothing in the selected files is live any more
+proof fn lemma_size_finish(kd0: Map<Bytes, KeyDirEntry>, st0: Map<u64, LogStatistics>, w0: &World, sel: Set<u64>, act: u64, keys: Seq<Bytes>, exact: bool,
+                           kd: Map<Bytes, KeyDirEntry>, st: Map<u64, LogStatistics>, w: &World, hi: u64, ids: Seq<u64>)
+    requires
+        merge_state(kd0, st0, w0, sel, act, keys, exact, kd, st, w, keys.len() as int, hi), keys.to_set() == kd0.dom(), ids_ok(w0, sel, ids),
+        size_inv(kd0, w0, ids, act, kd, w, hi),
+    ensures
+        range_size(w, act + 1, hi as int) + sum_dead(kd0, w0, ids) == sum_size(w0, ids),
+{
+    reveal(merge_state);
+    assert forall |k: Bytes, x: int| #[trigger] kd.contains_key(k) && 0 <= x < ids.len() implies kd[k].fileid != #[trigger] ids[x] by {
+        assert(kd0.dom().contains(k));
+        assert(keys.to_set().contains(k));
+        let j = choose |j: int| 0 <= j < keys.len() && keys[j] == k;
+        assert(!sel.contains(kd[keys[j]].fileid));
+        assert(ids.to_set().contains(ids[x]));
+    }
+    lemma_sum_dead_le(kd, w0, ids);
+}
+
+/// C13: putting the pieces together after the deletion loop and the creation of the new active file
+proof fn lemma_merge_sizes(w0: &World, w1: &World, w3: &World, w: &World, kd0: Map<Bytes, KeyDirEntry>, kd: Map<Bytes, KeyDirEntry>, sel: Set<u64>, act: u64, hi: u64, ids: Seq<u64>)
+    requires
+        merged_world(w0, w3, kd0, kd, sel, act, hi), ids_ok(w0, sel, ids),
+        forall |g: u64| #[trigger] w3.data.contains_key(g) ==> g <= hi,
+        forall |g: u64| act < g <= hi ==> #[trigger] w3.data.contains_key(g) && w3.data[g] == w1.data[g],
+        range_size(w1, act + 1, hi as int) + sum_dead(kd0, w0, ids) == sum_size(w0, ids),
+        w.data == w3.data.insert((hi + 1) as u64, empty_data()),
+    ensures
+        merge_sizes(w0, w, kd0, ids, (act + 1) as u64, hi),
+{
+    let lo = (act + 1) as u64;
+    let nh = (hi + 1) as u64;
+    assert forall |g: u64| act + 1 <= g <= hi implies (#[trigger] w.data[g]).recs == w1.data[g].recs by {
+        assert(w3.data.contains_key(g));
+    }
+    lemma_range_same(w1, w, act + 1, hi as int);
+    assert(fsize(w.data[nh].recs) == 0);
+    assert forall |f: u64| (#[trigger] w0.data.contains_key(f) && !w.data.contains_key(f)) <==> ids.contains(f) by {
+        if ids.contains(f) {
+            let x = choose |x: int| 0 <= x < ids.len() && ids[x] == f;
+            assert(w0.data.contains_key(ids[x]));
+            assert(ids.to_set().contains(f));
+            assert(f <= act);
+            assert(w3.data.contains_key(f) == (w0.data.contains_key(f) && !sel.contains(f)));
+        }
+        if w0.data.contains_key(f) && !w.data.contains_key(f) {
+            assert(f <= act);
+            assert(w3.data.contains_key(f) == (w0.data.contains_key(f) && !sel.contains(f)));
+            assert(!w3.data.contains_key(f));
+            assert(sel.contains(f));
+            assert(ids.to_set().contains(f));
+        }
+    }
+    assert forall |f: u64| (#[trigger] w.data.contains_key(f) && !w0.data.contains_key(f)) <==> lo <= f <= hi + 1 by {
+        if lo <= f <= hi + 1 {
+            if f != nh { assert(w3.data.contains_key(f)); }
+            if w0.data.contains_key(f) { assert(f <= act); }
+        }
+        if w.data.contains_key(f) && !w0.data.contains_key(f) {
+            if f != nh {
+                assert(w3.data.contains_key(f));
+                assert(f <= hi);
+                if f <= act { assert(w3.data.contains_key(f) == (w0.data.contains_key(f) && !sel.contains(f))); }
+            }
+        }
     }
 }
